@@ -53,7 +53,9 @@ class C17Monitor(object):
             elif cls == "Security":
                 p = feed.price(m.t, cn)
                 unit = abs(p * c.multiplier)
-                tol = (unit if integer else 0.0) + costs + abs(m.comm(1.0, p * c.multiplier)) * 2 + 1e-8 + 1e-9 * scale
+                spread = feed.get("bidoffer", m.t, cn) if feed.has("bidoffer") else 0.0
+                # one unit, the costs paid in this rebalance, and what one more unit would have cost on top
+                tol = (unit if integer else 0.0) + costs + 0.5 * spread * c.multiplier + abs(m.comm(1.0, p * c.multiplier)) * 2 + 1e-8 + 1e-9 * scale
                 if abs(nv - tgt) > tol:
                     sim.violation("c17_notional_target", "%s (Security) has market-value notional %r after Rebalance, target %r" % (cn, nv, tgt), {"cls": cls, "by_cash": False})
         for cn, c in target.children.items():
